@@ -6,9 +6,13 @@ import (
 	"errors"
 	"fmt"
 	"sort"
+	"sync"
+	"time"
 
 	"github.com/Breeze0806/gobinlog/replication"
+	"pgregory.net/rapid"
 
+	"verif/gen"
 	"verif/hist"
 	"verif/refenc"
 )
@@ -35,6 +39,16 @@ func junk(n int, seed byte) []byte {
 // checkCell feeds the master's encoding of the value to CellBytes and compares
 // the delivered text and the consumed length with the reference model.
 func checkCell(c CellCase) error {
+	out, exp, err := checkCellPure(c)
+	if err != nil {
+		return err
+	}
+	return retainAndVerify(c, exp, out)
+}
+
+// checkCellPure decodes one cell from a fresh buffer and compares it with the model; it
+// touches no harness state, so several goroutines may run it at once.
+func checkCellPure(c CellCase) ([]byte, hist.Expect, error) {
 	cell := hist.EncodeCell(c.Col, c.Val)
 	data := append(append(junk(c.Pre, 0xA5), cell...), junk(c.Post, 0x5A)...)
 	orig := append([]byte{}, data...)
@@ -46,18 +60,23 @@ func checkCell(c CellCase) error {
 		return e
 	})
 	if err != nil {
-		return fmt.Errorf("CellBytes(type %d meta %#x) failed on a well-formed value: %v", c.Col.Type, c.Col.LibMeta(), err)
+		return nil, hist.Expect{}, fmt.Errorf("CellBytes(type %d meta %#x) failed on a well-formed value: %v", c.Col.Type, c.Col.LibMeta(), err)
 	}
 	if n != len(cell) {
-		return fmt.Errorf("CellBytes(type %d meta %#x) consumed %d bytes, the cell has %d", c.Col.Type, c.Col.LibMeta(), n, len(cell))
+		return nil, hist.Expect{}, fmt.Errorf("CellBytes(type %d meta %#x) consumed %d bytes, the cell has %d", c.Col.Type, c.Col.LibMeta(), n, len(cell))
 	}
 	if !bytes.Equal(data, orig) {
-		return fmt.Errorf("CellBytes(type %d) modified the row image it was given", c.Col.Type)
+		return nil, hist.Expect{}, fmt.Errorf("CellBytes(type %d) modified the row image it was given", c.Col.Type)
 	}
 	exp := hist.ExpectCell(c.Col, c.Val, c.Unsigned)
 	if err := exp.Check(out); err != nil {
-		return fmt.Errorf("type %d meta %#x: %v", c.Col.Type, c.Col.LibMeta(), err)
+		return nil, hist.Expect{}, fmt.Errorf("type %d meta %#x: %v", c.Col.Type, c.Col.LibMeta(), err)
 	}
+	return out, exp, nil
+}
+
+// retainAndVerify re-checks the outputs of earlier calls and remembers this one.
+func retainAndVerify(c CellCase, exp hist.Expect, out []byte) error {
 	// values handed out earlier must still be what they were: decoding another cell must not
 	// change them (a decoder that recycles its output buffer would)
 	for i := range retained {
@@ -107,6 +126,18 @@ func checkCellSeq(c CellSeqCase) error {
 }
 
 func init() {
+	registerReplay("cellpar", func(raw json.RawMessage) error {
+		var c ParallelCells
+		if err := json.Unmarshal(raw, &c); err != nil {
+			return err
+		}
+		for i := 0; i < 20; i++ { // schedule dependent: several tries
+			if err := checkCellsParallel(&c); err != nil {
+				return err
+			}
+		}
+		return nil
+	})
 	registerReplay("cellseq", func(raw json.RawMessage) error {
 		var c CellSeqCase
 		if err := json.Unmarshal(raw, &c); err != nil {
@@ -158,4 +189,130 @@ func cellViolation(rec *Recorder, c CellCase, err error) string {
 		return rec.Violation("cellseq", CellSeqCase{Prev: se.Prev, Cur: se.Cur}, "", err)
 	}
 	return rec.Violation("cell", c, "", err)
+}
+
+// ParallelCells: several goroutines decode their own list of cells at the same time
+// (several streamers in one process do exactly that).
+type ParallelCells struct {
+	Lists [][]CellCase
+	Iters int
+}
+
+func checkCellsParallel(c *ParallelCells) error {
+	errs := make([]error, len(c.Lists))
+	var wg sync.WaitGroup
+	start := make(chan struct{})
+	// encode once, decode many times
+	type prepared struct {
+		cc   CellCase
+		data []byte
+		n    int
+		exp  hist.Expect
+	}
+	prep := make([][]prepared, len(c.Lists))
+	for g, list := range c.Lists {
+		for _, cc := range list {
+			cell := hist.EncodeCell(cc.Col, cc.Val)
+			data := append(append(junk(cc.Pre, 0xA5), cell...), junk(cc.Post, 0x5A)...)
+			prep[g] = append(prep[g], prepared{cc, data, len(cell), hist.ExpectCell(cc.Col, cc.Val, cc.Unsigned)})
+		}
+	}
+	for g := range c.Lists {
+		wg.Add(1)
+		go func(g int) {
+			defer wg.Done()
+			<-start
+			for it := 0; it < c.Iters && errs[g] == nil; it++ {
+				for _, p := range prep[g] {
+					var out []byte
+					var n int
+					err := guard(func() (e error) {
+						out, n, e = replication.CellBytes(p.data, p.cc.Pre, p.cc.Col.Type, p.cc.Col.LibMeta(), p.cc.Unsigned)
+						return
+					})
+					if err == nil && n != p.n {
+						err = fmt.Errorf("consumed %d bytes, the cell has %d", n, p.n)
+					}
+					if err == nil {
+						err = p.exp.Check(out)
+					}
+					if err != nil {
+						errs[g] = fmt.Errorf("goroutine %d of %d decoding concurrently (iteration %d, type %d meta %#x): %v", g, len(c.Lists), it, p.cc.Col.Type, p.cc.Col.LibMeta(), err)
+						break
+					}
+				}
+			}
+		}(g)
+	}
+	close(start)
+	wg.Wait()
+	for _, err := range errs {
+		if err != nil {
+			return err
+		}
+	}
+	return nil
+}
+
+// drawParallelCells draws 2..4 lists of 1..4 cells each for the given column kinds.
+func drawParallelCells(rt *rapid.T, kinds []struct{ T, Real byte }, lim gen.Limits) *ParallelCells {
+	pc := &ParallelCells{Iters: rapid.IntRange(10, 60).Draw(rt, "par_iters")}
+	ng := rapid.IntRange(2, 4).Draw(rt, "par_goroutines")
+	for g := 0; g < ng; g++ {
+		var list []CellCase
+		for i, n := 0, rapid.IntRange(1, 4).Draw(rt, "par_cells"); i < n; i++ {
+			k := rapid.SampledFrom(kinds).Draw(rt, "par_kind")
+			col := gen.ColumnOf(rt, k.T, k.Real, gen.ColumnOpt{Extra: true, NoHeavy: true})
+			list = append(list, CellCase{Col: col, Val: gen.ValueOf(rt, col, lim), Unsigned: rapid.Bool().Draw(rt, "par_unsigned"), Pre: 1, Post: 1})
+		}
+		pc.Lists = append(pc.Lists, list)
+	}
+	return pc
+}
+
+// parallelPart runs the concurrent-decoder part of a direct decoder check.
+func parallelPart(rt *rapid.T, rec *Recorder, id string, kinds []struct{ T, Real byte }) {
+	lim := gen.Limits{MaxBlob: 300, MaxJSONKB: 66, SmallJSON: true}
+	pc := drawParallelCells(rt, kinds, lim)
+	rec.Case(true, pc, "concurrent-decoders")
+	if err := checkCellsParallel(pc); err != nil {
+		rec.Violation("cellpar", pc, "", err)
+		rt.Fatalf("%s violation: %v", id, err)
+	}
+}
+
+// reannouncePart: end to end, a table id announced again with other column types / metadata must
+// be split AND decoded with the new definition (shared with C15's scenario).
+func reannouncePart(rt *rapid.T, rec *Recorder, id string) {
+	c := drawRebind(rt, rapid.SampledFrom([]int{0, 0, 5}).Draw(rt, "reannounce_mode"))
+	rec.Case(true, c, "e2e/re-announced-table-map")
+	journal(id, "c15rebind", c)
+	if err := checkRebind(c); err != nil {
+		rec.Violation("c15rebind", c, "", err)
+		rt.Fatalf("%s violation: %v", id, err)
+	}
+}
+
+// zoneTransitions lists the instants (1970..2038) at which the UTC offset of the process zone changes.
+func zoneTransitions() []int64 {
+	var out []int64
+	_, prev := time.Unix(0, 0).In(time.Local).Zone()
+	for t := int64(0); t < 1<<31; t += 6 * 3600 {
+		_, off := time.Unix(t, 0).In(time.Local).Zone()
+		if off != prev {
+			// binary search the exact second inside the last 6 hours
+			lo, hi := t-6*3600, t
+			for hi-lo > 1 {
+				mid := (lo + hi) / 2
+				if _, o := time.Unix(mid, 0).In(time.Local).Zone(); o == prev {
+					lo = mid
+				} else {
+					hi = mid
+				}
+			}
+			out = append(out, hi)
+			prev = off
+		}
+	}
+	return out
 }
